@@ -25,7 +25,8 @@ import (
 )
 
 type kase struct {
-	Stream string `json:"stream"` // range | arith | cas | concat | nbs
+	Stream string `json:"stream"` // range | arith | cas | casl | gitcas | concat | nbs
+	Op     string `json:"op,omitempty"` // gitcas: hook | free
 	Store  string `json:"store,omitempty"`
 	Size   int    `json:"size,omitempty"`
 	Off    int64  `json:"off,omitempty"`
@@ -50,12 +51,19 @@ type stores struct {
 	dir   string
 	inmem *blobstore.InMemoryBlobstore
 	local *blobstore.LocalBlobstore
+	git   *blobstore.GitBlobstore
 	have  map[string]bool
 }
 
 func (s *stores) get(name string) blobstore.Blobstore {
-	if name == "inmem" {
+	switch name {
+	case "inmem":
 		return s.inmem
+	case "git":
+		if s.git == nil {
+			s.git = newGitClient(s.dir, newGitRemote(s.dir), time.Hour)
+		}
+		return s.git
 	}
 	return s.local
 }
@@ -435,6 +443,9 @@ func runConcat(e *hx.Env, m *hx.Model, s *stores, k kase) {
 		n = r.Range(30, 70) // beyond composeBatch (32) in the in-memory store
 	}
 	bs := s.get(k.Store)
+	if k.Store == "git" && n > 8 {
+		n = 8 // every Put is a git commit + push
+	}
 	var keys []string
 	var parts [][]byte
 	var hexes []string
@@ -463,6 +474,12 @@ func runConcat(e *hx.Env, m *hx.Model, s *stores, k kase) {
 	mod := m.Ask(strings.TrimSpace("concat " + strings.Join(hexes, " ")))
 	e.Rep.Count(fmt.Sprintf("concat %s %d", k.Store, k.Seed), n > 1)
 	e.Rep.Hit("concat:" + k.Store)
+	if k.Store == "git" && n == 0 && strings.Contains(got, "requires at least one source") {
+		// the git backend rejects an empty source list (local / in-memory create an empty blob);
+		// a rejection is not a wrong concatenation — recorded as a backend difference
+		e.Rep.Hit("concat:git:empty-sources-rejected")
+		return
+	}
 	if got != want {
 		e.Rep.Violate("concat:"+k.Store, fmt.Sprintf("Concatenate of %d blobs = %s, want %s", n, got, want), k)
 		return
@@ -575,6 +592,12 @@ func runCase(e *hx.Env, m *hx.Model, s *stores, k kase) {
 		runCAS(e, m, s.dir, k)
 	case "casl":
 		runCASLockstep(e, m, s.dir, k)
+	case "gitcas":
+		if k.Op == "free" {
+			runGitCASFree(e, m, s.dir, k)
+		} else {
+			runGitCASHook(e, m, s.dir, k)
+		}
 	case "concat":
 		runConcat(e, m, s, k)
 	case "nbs":
@@ -585,9 +608,10 @@ func runCase(e *hx.Env, m *hx.Model, s *stores, k kase) {
 func main() {
 	e := hx.Init("blobstore", "C42")
 	defer e.Finish()
-	e.Rep.Rule = "range: ALL (offset, length) with -size-3 <= offset <= size+3, 0 <= length <= size+3 over blobs of sizes 0..40 for the in-memory and local stores, plus random ranges over a 3 kB blob incl. int64 extremes; arith: positiveRange/asHttpRangeHeader on the same grid; cas: G goroutines x R rounds of read-version/CheckAndPutManifest checked against a compare-and-swap register, and lockstep rounds (all writers expect the same version: exactly one wins; stale/empty/unknown expected versions must fail); concat: 0..70 blobs; nbs: put/commit/reopen round trips on a blobstore-backed NBS; nontrivial = suffix range, length 0, clamped or beyond the end; distinct by full case"
+	e.Rep.Rule = "range: ALL (offset, length) with -size-3 <= offset <= size+3, 0 <= length <= size+3 over blobs of sizes 0..40 for the in-memory and local stores (and sizes {0,1,2..4,7} for the git-backed store), plus random ranges over a 3 kB blob incl. int64 extremes; arith: positiveRange/asHttpRangeHeader on the same grid; cas: G goroutines x R rounds of read-version/CheckAndPutManifest checked against a compare-and-swap register, and lockstep rounds (all writers expect the same version: exactly one wins; stale/empty/unknown expected versions must fail); gitcas: two git-blobstore clients of one bare remote, the second client's conditional write forced between the first one's validation and its lease-guarded push (push hook), and free-running 3-client read-modify-write loops (every success must be recorded in the final manifest); concat: 0..70 blobs; nbs: put/commit/reopen round trips on a blobstore-backed NBS; nontrivial = suffix range, length 0, clamped or beyond the end; distinct by full case"
 	m := e.MustModel()
 	defer m.Close()
+	gitEnv()
 	dir := filepath.Join(e.Scratch, "bs")
 	os.MkdirAll(filepath.Join(dir, "local"), 0o755)
 	s := &stores{dir: dir, inmem: blobstore.NewInMemoryBlobstore(""), local: blobstore.NewLocalBlobstore(filepath.Join(dir, "local")), have: map[string]bool{}}
@@ -639,6 +663,28 @@ func main() {
 			runRange(e, m, s, kase{Stream: "range", Store: st, Size: size, Off: off, Len: l})
 		}
 	}
+	// git-backed store: the same exhaustive (offset, length) sweep on a few small sizes (every read
+	// is a git process), plus int64 extremes
+	gitSizes := []int{0, 1, 2 + int(e.Seed)%3, 7}
+	if e.Thorough() {
+		gitSizes = []int{0, 1, 2, 3, 4, 5, 7, 12, 20}
+	}
+	for _, size := range gitSizes {
+		for off := int64(-size - 3); off <= int64(size+3); off++ {
+			for l := int64(0); l <= int64(size+3); l++ {
+				runRange(e, m, s, kase{Stream: "range", Store: "git", Size: size, Off: off, Len: l})
+			}
+		}
+		for _, x := range [][2]int64{{math.MaxInt64, 0}, {math.MinInt64, 0}, {0, math.MaxInt64}, {-1, math.MaxInt64}, {int64(size), math.MaxInt64}} {
+			runRange(e, m, s, kase{Stream: "range", Store: "git", Size: size, Off: x[0], Len: x[1]})
+		}
+	}
+	for i, n := 0, e.N(2, 10); i < n; i++ {
+		runGitCASHook(e, m, dir, kase{Stream: "gitcas", Op: "hook", Rounds: r.Range(2, 4), Seed: r.U64() % 100000})
+	}
+	for i, n := 0, e.N(1, 6); i < n; i++ {
+		runGitCASFree(e, m, dir, kase{Stream: "gitcas", Op: "free", G: 3, Rounds: r.Range(3, 4), Seed: r.U64() % 100000})
+	}
 	for size := 0; size <= maxSize; size += step {
 		for off := int64(-size - 3); off <= int64(size+3); off++ {
 			for l := int64(0); l <= int64(size+3); l++ {
@@ -660,7 +706,7 @@ func main() {
 		runCASLockstep(e, m, dir, kase{Stream: "casl", Store: "local", G: r.Range(2, 6), Rounds: r.Range(2, 6), Seed: r.U64() % 100000})
 	}
 	for i, n := 0, e.N(20, 200); i < n; i++ {
-		runConcat(e, m, s, kase{Stream: "concat", Store: hx.Pick(r, []string{"inmem", "inmem", "local"}), Seed: r.U64() % 1000000})
+		runConcat(e, m, s, kase{Stream: "concat", Store: hx.Pick(r, []string{"inmem", "inmem", "local", "git"}), Seed: r.U64() % 1000000})
 	}
 	for i, n := 0, e.N(4, 30); i < n; i++ {
 		runNBS(e, dir, kase{Stream: "nbs", Store: hx.Pick(r, []string{"inmem", "local"}), Seed: r.U64() % 1000000})
